@@ -223,6 +223,15 @@ Section C12Keys.
     In (k, r) (map_server_keys M d m) -> In (k, r) m \/ entry_from M d k r.
   Proof. exact (map_server_keys_In M). Qed.
 
+  (* ServerKeys.PublicKey hands out a listed current key up to and including valid_until_ts, or a
+     listed old key up to and INCLUDING its expired_ts (the key ring itself, via WasValidAt,
+     stops strictly before expired_ts) *)
+  Theorem server_keys_public_key_spec : forall (sk : server_keys M) kid atts key,
+    public_key M sk kid atts = Some key ->
+    (In (kid, key) (sk_verify sk) /\ atts <= sk_valid_until sk) \/
+    (exists e, In (kid, (key, e)) (sk_old sk) /\ atts <= e).
+  Proof. exact (public_key_spec M). Qed.
+
   (* an answer of the perspective fetcher exists only if EVERY response of the notary carries a
      signature of the notary, under a key id we hold a notary key for, that verifies with that
      key, and passes CheckKeys for the server it names; and every key in the answer comes from
@@ -340,5 +349,6 @@ Print Assumptions check_keys_spec.
 Print Assumptions check_keys_returns_only_checked_keys.
 Print Assumptions fetchers_check_validity_against_the_epoch.
 Print Assumptions server_keys_map_spec.
+Print Assumptions server_keys_public_key_spec.
 Print Assumptions perspective_requires_notary_signature.
 Print Assumptions direct_fetcher_accepts_only_checked_responses.
